@@ -344,6 +344,16 @@ impl<'r> Gen<'r> {
     // ---------------------------------------------------------------- values
 
     pub fn string(&mut self) -> String {
+        if self.rng.chance(1, 400) {
+            // a long run of one delimiter character (style selection counts consecutive quotes)
+            let q = *self.rng.pick(&['"', '\'', '\\', '\n']);
+            let n = *self.rng.pick(&[254usize, 255, 256, 257, 300, 513]);
+            let mut s: String = std::iter::repeat(q).take(n).collect();
+            if self.rng.chance(1, 2) {
+                s.push('x');
+            }
+            return s;
+        }
         if self.rng.chance(self.cfg.p_random_str, 100) {
             let n = self.rng.below(12);
             (0..n).map(|_| *self.rng.pick(STR_CHARS)).collect()
